@@ -29,7 +29,7 @@ RULE = ('winnow: every list of <=5 processes with exit codes in '
         'faults: generated reference problems (5-8 leaves, 2-3 levels, '
         '10-16 genes) x 8 stage fixtures x worker index x {before,mid,after} '
         'x {raise,os._exit(3),SIGKILL} with n_processors in 2..4; quick = '
-        'first+last worker, thorough = every worker on 3 problems. '
+        'first+last worker, thorough = every worker on 5 problems. '
         'non-trivial = winnow list with a finished process / a fault that '
         'actually fired in a stage with >=2 workers; distinct by '
         '(stage, n_workers, worker, point, mode, problem)')
@@ -465,7 +465,9 @@ def run_faults(ctx):
     else:
         plans = [(rng.randrange(2 ** 31), 5, 2),
                  (rng.randrange(2 ** 31), 7, 3),
-                 (rng.randrange(2 ** 31), 8, 4)]
+                 (rng.randrange(2 ** 31), 8, 4),
+                 (rng.randrange(2 ** 31), 6, 4),
+                 (rng.randrange(2 ** 31), 8, 2)]
     for prob_seed, n_leaves, n_proc in plans:
         prob = make_problem(prob_seed, n_leaves)
         with pipeline.workdir('ctmverif_c14_') as d:
